@@ -1,12 +1,14 @@
 #!/venv/bin/python
 """Write the task files for independent sub-agents that produce behaviour-PRESERVING refactorings.
 
-usage: gen_neutral_prompts.py <outdir> <worktree-prefix>
+usage: gen_neutral_prompts.py <outdir> <worktree-prefix> [small]
   one file <outdir>/prompt_P<k>.txt per agent; the agent gets ONLY that text and its own scratch worktree.
+  small: six edits of one to ten lines each instead of four substantial refactorings.
 """
 import os, sys
 
 out, prefix = sys.argv[1], sys.argv[2]
+style = sys.argv[3] if len(sys.argv) > 3 else ""
 os.makedirs(out, exist_ok=True)
 FOCUS = {
     1: "`icontract/_checkers.py`: the helpers `_assert_preconditions(_async)`, `_assert_postconditions(_async)`, `_capture_old(_async)`, `_assert_invariant`, `_create_violation_error`, `not_check`, `select_*_kwargs`, `_assert_no_invalid_kwargs`, `_assert_resolved_kwargs_valid`. Ideas: share code between the sync and async variants through small helpers; turn flag variables into early exits; iterate with any()/all()/next() where equivalent; change internal call style.",
@@ -41,7 +43,14 @@ For each refactoring write two files into `{out}/P{k}/a/` ... `d/`:
 
 After saving each patch run `git -C {wt} checkout -- .` and leave the worktree clean at the end. Your final answer: a short table of the four refactorings (functions, kind, size) and the test/probe results you observed, plus any caveat about equivalence you are aware of.
 """
+if style == "small":
+    T = T.replace("Produce FOUR independent, strictly BEHAVIOUR-PRESERVING refactorings (`a`, `b`, `c`, `d`), each applied alone to a clean tree.", "Produce SIX independent, strictly BEHAVIOUR-PRESERVING SMALL edits (`a` ... `f`), each applied alone to a clean tree.")
+    T = T.replace("Make them SUBSTANTIAL: 30-120 changed lines each, and each of a DIFFERENT KIND (e.g. helper extraction; control-flow restructuring; data-structure or iteration idiom change; renaming plus moving code).", "Keep them SMALL: one to ten changed lines each -- the kind of touch-up that goes into an ordinary maintenance commit -- and each of a DIFFERENT KIND. Examples of kinds: an equivalent operator or test (`not x is None` -> `x is not None`, `len(xs) == 0` -> `not xs` where xs is known to be a list, De Morgan, swapping the arms of an if/else with the test negated); a renamed local variable or a temporary introduced / removed; `for` + append turned into a comprehension or back; an early `continue`/`return` instead of nesting; keyword arguments instead of positional ones in an internal call (or back); two independent statements swapped; `x = x + [y]`-free equivalent list building where no aliasing is involved; a tuple instead of a list for a literal that is only iterated; `isinstance(x, (A, B))` for two tests; a conditional expression for a four-line if/else; an added `assert` or type annotation or comment; a constant hoisted to module level. Prefer edits INSIDE the functions of your focus area that decide behaviour (the tests, loops, raises, returns), not in docstrings only.")
+    T = T.replace("`{out}/P{k}/a/` ... `d/`", "`{out}/P{k}/a/` ... `f/`")
+    T = T.replace("a short table of the four refactorings", "a short table of the six edits")
 for k, focus in FOCUS.items():
     wt = "%s%d" % (prefix, k)
+    if style == "small":
+        focus = focus.split(" Ideas:")[0]
     open(os.path.join(out, "prompt_P%d.txt" % k), "w").write(T.format(wt=wt, out=out, k=k, focus=focus))
 print("wrote", len(FOCUS), "prompts")
